@@ -269,6 +269,15 @@ def run_case(inp):
                 s2.b = old
                 if s2.observe() != before:
                     V("no-mutation", f"op {op}{args} modified the loader it was derived from")
+            if op in (5, 6) and before is not None:
+                # head(n) / tail(n): the first / last min(n, count) molecules, in order
+                prev = [int(x) for x in old.molecules.features["tag"].to_list()]
+                k = int(args[0])
+                want_tags = prev[:k] if op == 5 else (prev[len(prev) - k:] if k < len(prev) else prev)
+                got_tags = [int(x) for x in s.b.molecules.features["tag"].to_list()]
+                if got_tags != want_tags:
+                    V("derived-loader", f"{'head' if op == 5 else 'tail'}({k}) of a loader with molecules {prev} returned {got_tags}")
+                    return viols
             msg = s.check_sources()
             if msg:
                 V("source-tomogram", f"after op {op}{args}: {msg}")
@@ -378,7 +387,7 @@ def run_case(inp):
         # groups: partition, re-iterable, derived groups too
         g = b.groupby((pl.col("tag") % 2).alias("k"))
         for label, grp in (("groupby", g), ("groupby.filter", g.filter(pl.col("tag") >= 0)), ("groupby.head", g.head(50)),
-                           ("groupby.tail", g.tail(50))):
+                           ("groupby.tail", g.tail(50)), ("groupby.tail(n+1)", g.tail(n + 1)), ("groupby.head(n+1)", g.head(n + 1))):
             first = [(k, [int(t) for t in ld.molecules.features["tag"].to_list()]) for k, ld in grp]
             second = [(k, [int(t) for t in ld.molecules.features["tag"].to_list()]) for k, ld in grp]
             if first != second:
@@ -402,6 +411,10 @@ def oracle(rng, thorough, deep=False, hints=None):
     # the classic interleaved batch: two tomograms, sorted so that ids alternate
     cases.append(dict(ops=[[1, [0, 3]], [1, [1, 3]], [3, [7, 997, 0]]]))
     cases.append(dict(ops=[[1, [5, 2]], [2, [3]], [1, [1, 2]], [3, [3, 997, 1]], [6, [5]]]))
+    # head / tail asking for more molecules than there are (whole loader and groups of unequal size)
+    cases.append(dict(ops=[[1, [0, 3]], [1, [1, 2]], [6, [6]]]))
+    cases.append(dict(ops=[[1, [0, 3]], [1, [1, 2]], [6, [11]]]))
+    cases.append(dict(ops=[[1, [2, 2]], [5, [9]], [6, [3]]]))
     # batches merged into batches (fewer / more tomograms than the receiving collection)
     cases.append(dict(ops=[[1, [0, 2]], [9, [2, 2, 0]], [3, [7, 997, 0]]]))
     cases.append(dict(ops=[[1, [3, 1]], [9, [3, 2, 1]], [9, [1, 2, 0]], [3, [5, 997, 1]]]))
